@@ -491,7 +491,9 @@ class Generator(AbstractODSGenerator):
         return self.MIN_ROWS + computed_data.in_transaction_set.count + computed_data.out_transaction_set.count + computed_data.intra_transaction_set.count
 
     def __get_number_of_rows_in_output_sheet(self, computed_data: ComputedData) -> int:
-        return self.MIN_ROWS + len(computed_data.yearly_gain_loss_list) + computed_data.balance_set.count + computed_data.gain_loss_set.count
+        # The account balances table has one line per balance plus one "Total" line per holder
+        number_of_holders: int = len({balance.holder for balance in computed_data.balance_set})
+        return self.MIN_ROWS + len(computed_data.yearly_gain_loss_list) + computed_data.balance_set.count + number_of_holders + computed_data.gain_loss_set.count
 
     def __generate_asset(self, computed_data: ComputedData, output_file: Any, summary_row_index: int) -> int:
         asset: str = computed_data.asset
